@@ -193,6 +193,6 @@ CLAIM = dict(
     text="Per-probe contracts on w2c2-generated C for all argument values: host imports get (instance, args in order) and their result is delivered; a distinguishing "
          "5-parameter mixed-type callee detects any argument permutation; recursion and mutual recursion (bounded depth); call_indirect dispatch on the top operand through "
          "imported/defined tables; element segments with constant and imported-global offsets place exactly the listed functions and touch no other slot.",
-    note="Program shapes are two enumerated probe modules; recursion depth bounded; unbounded in argument values. E-layer contracts on wasmCWriteCallExpr etc. are not built.",
+    note="Program shapes are two enumerated probe modules; recursion depth bounded; unbounded in argument values. Both probe modules are verified from the default and the -p output. wasmCWriteCallExpr / wasmCWriteCallIndirectExpr are under an E-layer contract at every stack height for 0-3 parameters, with and without result.",
     technique="CBMC contracts on w2c2-generated C with recording host-function stubs (call-site contracts)",
 )
